@@ -317,6 +317,23 @@ func ssaPaths(fn *ssa.Function) ([]string, bool) {
 			case *ssa.Store:
 				acc = append(acc, "store "+ssaTerm(x.Addr, new([]string), 0)+" = "+ssaTerm(x.Val, new([]string), 0))
 			case *ssa.Return:
+				// a truth value computed by a comparison is the same as branching on it
+				if len(x.Results) == 1 {
+					if bo, isB := x.Results[0].(*ssa.BinOp); isB && (bo.Op == token.EQL || bo.Op == token.NEQ) {
+						a, c2 := ssaTerm(bo.X, new([]string), 0), ssaTerm(bo.Y, new([]string), 0)
+						if c2 < a {
+							a, c2 = c2, a
+						}
+						eq := "(" + a + " == " + c2 + ")"
+						tv, fv := "true", "false"
+						if bo.Op == token.NEQ {
+							tv, fv = fv, tv
+						}
+						out = append(out, strings.Join(append(append([]string{}, acc...), eq, "return "+tv), "; "))
+						out = append(out, strings.Join(append(append([]string{}, acc...), "!"+eq, "return "+fv), "; "))
+						return
+					}
+				}
 				var rs []string
 				for _, r := range x.Results {
 					rs = append(rs, ssaTerm(r, new([]string), 0))
